@@ -241,3 +241,115 @@ def argparse_models(repo=None, seed=0, n=120):
             'cases': len(jobs), 'outside_model': outside,
             'bound': '%d generated vectors per command, <= 3 options, <= 2 operands' % n,
             'problems': problems[:10], 'counts_as_proof': False}
+
+
+def engine_differential(repo=None):
+    """the symbolic interpreter in CONCRETE mode (all arguments literals)
+    against CPython, on pure functions of the tree under test and generated
+    arguments: same result or same exception class.  Guards the interpreter
+    and the library models on concrete values; bounded, never proof."""
+    import json
+    import os
+    import subprocess
+    from .vc import Session
+    from .values import PyExc, OutsideSubset, Obj, TupleObj, is_sym
+    from .libmodels import DateV
+    import z3 as _z3
+
+    def comps(tokens, n):
+        out = []
+        for k in range(1, n + 1):
+            out += [''.join(t) for t in itertools.product(tokens, repeat=k)]
+        return out
+    jobs = []
+    for p in comps(['/t', '/info/', 'a', '.trashinfo', '.', '/'], 3):
+        if p.endswith('.trashinfo') and not p.endswith('/.trashinfo') and \
+                p not in ('.trashinfo', '..trashinfo', '...trashinfo'):
+            jobs.append(['trashcli.lib.path_of_backup_copy', 'path_of_backup_copy', [p]])
+    lines = ['[Trash Info]', 'Path=a%20b', 'Path=/x/%41y', 'Path=', 'DeletionDate=2001-02-03T04:05:06',
+             'DeletionDate=bad', 'X=1', '']
+    for k in (1, 2, 3):
+        for c in itertools.product(lines, repeat=k):
+            t = '\n'.join(c) + '\n'
+            jobs.append(['trashcli.parse_trashinfo.parse_path', 'parse_path', [t]])
+            jobs.append(['trashcli.parse_trashinfo.parse_deletion_date',
+                         'parse_deletion_date', [t]])
+            jobs.append(['trashcli.parse_trashinfo.maybe_parse_deletion_date',
+                         'maybe_parse_deletion_date', [t]])
+    for s in comps(['.', '/', 'a', '..'], 4):
+        jobs.append(['trashcli.put.core.trashee', 'should_skipped_by_specs', [s]])
+    for r in ['', 'y', 'Y', 'yes', 'n', ' y', 'No', 'ý']:
+        jobs.append(['trashcli.empty.parse_reply', 'parse_reply', [r]])
+        jobs.append(['trashcli.put.user', 'parse_user_reply', [r]])
+    for env in ({}, {'HOME': '/h'}, {'XDG_DATA_HOME': '/x'}, {'XDG_DATA_HOME': '', 'HOME': '/h'},
+                {'XDG_DATA_HOME': '/x', 'HOME': '/h'}, {'HOME': ''}):
+        jobs.append(['trashcli.lib.trash_dirs', 'home_trash_dir_path_from_env', [env]])
+    for loc in ['/a/b', '/a b/c%d', 'rel/x', '/é', '/a+b', '/new\nline']:
+        jobs.append(['trashcli.put.format_trash_info', 'format_original_location', [loc]])
+    S = Session('engine-differential', repo=repo)
+    repo = S.interp.repo
+    p = subprocess.run(['/venv/bin/python', os.path.join(os.path.dirname(
+        os.path.abspath(__file__)), 'engine_real.py')], input=json.dumps(jobs),
+        capture_output=True, text=True, env=dict(os.environ, PYTHONPATH=repo),
+        timeout=600)
+    real = json.loads(p.stdout)
+    model = []
+
+    def enc(r):
+        if is_sym(r):
+            v = _z3.simplify(r.t)
+            if _z3.is_string_value(v):
+                return v.as_string()
+            if _z3.is_int_value(v):
+                return v.as_long()
+            if _z3.is_true(v) or _z3.is_false(v):
+                return _z3.is_true(v)
+            return 'symbolic'
+        if isinstance(r, (str, int, bool, type(None))):
+            return r
+        if isinstance(r, DateV):
+            us = _z3.simplify(r.us)
+            if _z3.is_int_value(us):
+                import datetime
+                return 'datetime:' + (datetime.datetime(1, 1, 1) + datetime.timedelta(
+                    microseconds=us.as_long())).strftime('%Y-%m-%dT%H:%M:%S')
+            return 'symbolic'
+        if isinstance(r, (list, tuple)):
+            return [enc(x) for x in r]
+        if isinstance(r, Obj):
+            return 'obj:' + r.cls.name
+        return 'symbolic'
+
+    def body(V):
+        I = V.I
+        for module, qualname, args in jobs:
+            try:
+                f = I.lookup(module, qualname)
+                model.append({'result': enc(I.call(f, list(args), {}))})
+            except PyExc as pe:
+                model.append({'exc': pe.value.cls.name})
+            except OutsideSubset as e:
+                model.append({'outside': str(e)})
+    S.run_paths('engine-differential', body)
+    problems = []
+    symbolic = outside = 0
+    forks = S.paths
+    for job, a, b in zip(jobs, real, model):
+        if 'outside' in b:
+            outside += 1
+            continue
+        if b.get('result') == 'symbolic' or (isinstance(b.get('result'), list)
+                                             and 'symbolic' in b['result']):
+            symbolic += 1
+            continue
+        if a != b:
+            problems.append('%s.%s%r: CPython %r, pyvc %r' % (job[0], job[1], job[2], a, b))
+    if S.errors or len(model) < len(jobs):
+        problems.append('engine run incomplete: %d of %d, %r' % (
+            len(model), len(jobs), S.errors[:2]))
+    if forks != 1:
+        problems.append('concrete arguments made the interpreter fork (%d paths)' % forks)
+    return {'what': 'pyvc interpreter on concrete arguments vs CPython (pure repo functions)',
+            'cases': len(jobs), 'left_symbolic': symbolic, 'outside_subset': outside,
+            'bound': 'token-grammar arguments for 9 pure functions',
+            'problems': problems[:10], 'counts_as_proof': False}
